@@ -550,3 +550,12 @@ def comprehension(i, node, fr, kind):
 from . import rng  # noqa  (registers numpy.random models)
 from . import misc  # noqa
 from . import maps  # noqa
+from . import strings  # noqa
+from . import arrays  # noqa
+from . import np_core  # noqa
+from . import h5  # noqa
+
+
+def on_new_path(i):
+    for f in strings.base_axioms():
+        i.ctx.assume(f)
